@@ -3,7 +3,7 @@
    renames seen by the watcher, daemon restarts), by induction on the list. *)
 From Coq Require Import List Bool Arith ZArith Lia String Permutation.
 Import ListNotations.
-From BD.Cron Require Import Model Schedule ProofsNext.
+From BD.Cron Require Import Model Schedule ProofsNext ProofsSched.
 From BD.Daemon Require Import Model ProofsTick Proofs.
 Local Open Scope Z_scope.
 
@@ -293,6 +293,53 @@ Proof.
     + pose proof (step_alive s0 o Hd Ho1 Ha) as H. rewrite Est in H. exact H.
 Qed.
 
+(* Since the repairs c2912bd / 519d0a6 no content of a DAG file makes the schedule loader panic: the premises
+   dir_safe / op_safe hold for every directory and every operation, so a started daemon never dies. *)
+Lemma never_panics : forall g c, panics g c = false.
+Proof.
+  intros g c. unfold panics, load. destruct (negb (ext_ok g)); [reflexivity|]. destruct c as [|v]; [reflexivity|].
+  pose proof (build_schedule_no_panic v). destruct (build_schedule v); congruence.
+Qed.
+
+Lemma dir_safe_all : forall s, dir_safe s.
+Proof. intros s f c _ g. apply never_panics. Qed.
+Lemma op_safe_all : forall o, op_safe o.
+Proof. intros [ | | |f c| | | ]; simpl; try exact I. intro g. apply never_panics. Qed.
+
+Theorem step_alive_always : forall s o, alive s = true -> alive (fst (step s o)) = true.
+Proof. intros. apply step_alive; [apply dir_safe_all | apply op_safe_all | assumption]. Qed.
+
+Theorem restart_alive_always : forall s, alive (fst (step s ORestart)) = true.
+Proof. intro s. apply restart_alive. apply dir_safe_all. Qed.
+
+Theorem alive_always : forall ops s0, alive s0 = true ->
+  forall s o cs, In (s, o, cs) (trace s0 ops) -> alive s = true.
+Proof.
+  intros ops s0 Ha. apply alive_stable; [apply dir_safe_all | | assumption].
+  apply Forall_forall. intros o _. apply op_safe_all.
+Qed.
+
+Lemma final_app : forall a b s, final s (a ++ b) = final (final s a) b.
+Proof. induction a as [|o a IH]; intros b s; simpl; [reflexivity | apply IH]. Qed.
+
+Lemma final_inv : forall ops s, Inv s -> Inv (final s ops).
+Proof. induction ops as [|o ops IH]; intros s H; simpl; [assumption | apply IH, step_inv; assumption]. Qed.
+
+(* C09_no_miss in full: in every history, once the daemon has been started, every tick that happens starts every
+   loadable DAG file of the directory whose guard holds - no exclusion of any file content. *)
+Theorem no_miss_started : forall s0 pre post, Inv s0 ->
+  forall s m w cs, In (s, OTick m w, cs) (trace (final s0 (pre ++ [ORestart])) post) ->
+  forall f c e sp, lookup f (dir s) = Some c -> load f c = FOk e -> In sp (starts e) -> matches sp m = true ->
+  mem f (susp s) = false -> start_guard (status_of s f) m = true -> In (CStart f) cs.
+Proof.
+  intros s0 pre post H0 s m w cs Hin.
+  assert (Ha0 : alive (final s0 (pre ++ [ORestart])) = true).
+  { rewrite final_app. cbn [final]. apply restart_alive_always. }
+  pose proof (final_inv (pre ++ [ORestart]) s0 H0) as Hi.
+  pose proof (alive_always post _ Ha0 _ _ _ Hin) as Ha.
+  intros. eapply no_miss; eassumption.
+Qed.
+
 (* ---------------------------------------------------------------------------------------- *)
 (* C09_bad_file                                                                               *)
 (* ---------------------------------------------------------------------------------------- *)
@@ -322,6 +369,18 @@ Proof.
   intros s f c h Hne Hp. cbn [step fst]. unfold on_write. cbn [set_dir alive tbl]. destruct (alive s); [|reflexivity].
   unfold panics in Hp. destruct (load f c); try discriminate; simpl; try reflexivity.
   apply lookup_upsert_other. congruence.
+Qed.
+
+(* in full: whatever is written to file f, the entries of every other file stay as they are and the daemon lives *)
+Theorem bad_file_others : forall s f c h, h <> f ->
+  lookup h (tbl (fst (step s (OWrite f c)))) = lookup h (tbl s).
+Proof. intros. apply other_files_kept; [assumption | apply never_panics]. Qed.
+
+Theorem write_keeps_alive : forall s f c, alive (fst (step s (OWrite f c))) = alive s.
+Proof.
+  intros s f c. destruct (alive s) eqn:Ha.
+  - apply step_alive_always. assumption.
+  - cbn [step fst]. rewrite on_write_dead by (simpl; assumption). simpl. assumption.
 Qed.
 
 (* ---------------------------------------------------------------------------------------- *)
